@@ -391,7 +391,10 @@ def run_history(scn, chooser):
             fs = faultfs.FaultFS(root, run.get('plan', []))
             with faultfs.active(fs):
                 outcome = sim.run(main)
-            clock = sim.clock + run.get('gap', 0.0) + 1.0
+            # the next run starts a moment later (a moment that the clock
+            # can resolve: two ticks of a coarse clock)
+            clock = sim.clock + run.get('gap', 0.0) + \
+                max(0.002, 2 * (scn.get('clock_quantum') or 0))
             agg.add(r, sim)
             for flt in fs.fired_log:
                 _fact(res, 'fault-fired:crash-during-write_env')
